@@ -11,6 +11,7 @@ and read back is the record generated; the other flavor's block is unchanged by 
 import io
 import json
 import os
+import time
 import shutil
 import tempfile
 
@@ -21,8 +22,10 @@ RULE = ("cases = (a) stacks: a stack name (blanks, dots, '+'), 3-6 declarations 
         "(inside / inside with blanks / outside / string-prefix sibling 'stack2' / none), a table-file placement "
         "(dir/ups, elsewhere in dir, absolute inside the stack, in 'ups_db2' (string-prefix sibling of ups_db), "
         "absolute outside, in the sibling, interned from a stream, none), a flavor (some versions get both), the "
-        "working directory of the command (neutral / product dir / ups dir / stack root), then a rename or a copy "
-        "of the stack to a new path; (b) version/chain records generated field by field over a clean and a dirty "
+        "working directory of the command (neutral / product dir / ups dir / stack root), the stack plain or reached "
+        "through a symbolic link (arguments through the link, or by their real paths), then a rename or a copy "
+        "of the stack to a new path (a linked stack: the real directory moves and is reached through a link of another "
+        "name); (b) records with qualified flavors in an admissible order (clean-qual); (b') version/chain records generated field by field over a clean and a dirty "
         "alphabet, written and read back; (c) hand-written-style record texts from a line grammar (comments, "
         "quotes, missing End, fields before FLAVOR, QUALIFIERS); (d) hand-written version files whose PROD_DIR / UPS_DIR / "
         "TABLE_FILE use $PROD_ROOT, $PROD_DIR, $UPS_DIR, $UPS_DB, $FLAVOR, near-miss macro names, relative, absolute, "
@@ -32,8 +35,9 @@ RULE = ("cases = (a) stacks: a stack name (blanks, dots, '+'), 3-6 declarations 
         "declare -t (re-pointing) / forced redeclaration of ONE flavor, comparing every other flavor's block of every "
         "version and chain record (parsed and as text) before and after. Non-trivial: (a) at least one declaration "
         "succeeded and was read back after the relocation, (b,c) always; distinct = distinct case digests")
-TRUSTED = ["os.path.realpath is the identity on the scratch paths (no symbolic links); os.path.join/abspath on "
-           "normalised paths = concatenation of segments",
+TRUSTED = ["os.path.realpath = replacement of the one symbolic link of the scratch tree (the stack's EUPS_PATH entry, when the "
+           "case has one) by its target: the model's `realOf`, used where the code resolves links (VersionFile.write); "
+           "the theorems are stated for real = identity; os.path.join/abspath on normalised paths = concatenation of segments",
            "CPython `re` on the record patterns (^(\\w+)\\s*=\\s*(.*), #.*$, ^(End|Group)\\s*:, quote stripping), "
            "ASCII input, no carriage returns",
            "the current directory of a command holds no entry named like a relative record value, except in the "
@@ -63,8 +67,11 @@ def gen_reloc(rng):
         if any(p["name"] == name and p["version"] == version and p["flavor"] == flavor for p in prods):
             continue
         prods.append(gen_product(rng, name, version, flavor, len(prods)))
+    # the stack may be reached through a symbolic link (EUPS_PATH names the link); the directories and table files of
+    # the declarations are then given through the link, or by their real paths
+    link = rng.choice([None, None, None, "link", "link_real_args"])
     return {"kind": "reloc", "stack": stack, "new": rng.choice(NEWS), "mode": rng.choice(["move", "move", "copy"]),
-            "products": prods}
+            "products": prods, "link": link}
 
 
 def gen_product(rng, name, version, flavor, idx):
@@ -193,6 +200,17 @@ def run_reloc(case):
     try:
         sn = case["stack"]
         stack = os.path.join(R, sn)
+        link = case.get("link")
+        real = os.path.join(R, "real-" + sn) if link else stack
+        if link:
+            os.makedirs(real)
+            os.symlink(real, stack)
+
+        def arg(path):
+            """a path inside the stack as the declaring user types it: through the link, or the real one"""
+            if link == "link_real_args" and isinstance(path, str) and (path + "/").startswith(stack + "/"):
+                return real + path[len(stack):]
+            return path
         for d in (stack + "/ups_db", stack + "2", R + "/elsewhere", R + "/tables", R + "/cwd", R + "/tmp",
                   R + "/userdataA", stack + "/tables", stack + "/ups_db2", stack + "2/tables"):
             os.makedirs(d)
@@ -200,7 +218,8 @@ def run_reloc(case):
             f.write(common.STARTUP % {"tags": "'beta'"})
         os.environ["EUPS_PATH"] = stack
         os.environ["EUPS_USERDATA"] = R + "/userdataA"
-        obs = {"R": R, "stack": stack, "decl": [], "vfiles": {}}
+        obs = {"R": R, "stack": stack, "real": real, "decl": [], "vfiles": {}}
+        fl = bool(link)
         clock = 0
         for i, p in enumerate(case["products"]):
             dirpath = want_dir(p, stack, R, sn)
@@ -224,8 +243,8 @@ def run_reloc(case):
                    "proddir": dirpath, "upsdir": os.path.join(dirpath, "ups")}[p["cwd"]]
             vfile = os.path.join(stack, "ups_db", p["name"], p["version"] + ".version")
             before = lib_records.read_text(vfile)
-            ex = lib_records.walk(R)
-            r = common.in_child(_child_declare, R, stack, p, cwd, dirpath, tablearg, clock)
+            ex = lib_records.walk(R, followlinks=fl)
+            r = common.in_child(_child_declare, R, stack, p, arg(cwd), arg(dirpath), arg(tablearg), clock)
             after = lib_records.read_text(vfile)
             rec = {"i": i, "old_text": before, "text": after, "ex": ex, "clock0": clock}
             if r[0] == "ok":
@@ -238,19 +257,25 @@ def run_reloc(case):
             obs["decl"].append(rec)
         # readers before the relocation
         obs["before"] = _read_all(case, stack, R)
-        obs["ex_before"] = lib_records.walk(R)
+        obs["ex_before"] = lib_records.walk(R, followlinks=fl)
         for p in case["products"]:
             vfile = os.path.join(stack, "ups_db", p["name"], p["version"] + ".version")
             obs["vfiles"]["%s/%s" % (p["name"], p["version"])] = lib_records.read_text(vfile)
         new = os.path.join(R, case["new"])
         os.makedirs(os.path.dirname(new), exist_ok=True)
-        if case["mode"] == "move":
+        if case["mode"] == "move" and link:
+            # the real directory moves as well, and the stack is reached through a link of another name
+            real2 = os.path.join(R, "real-moved")
+            os.rename(real, real2)
+            os.remove(stack)
+            os.symlink(real2, new)
+        elif case["mode"] == "move":
             os.rename(stack, new)
         else:
             shutil.copytree(stack, new, symlinks=True)
         obs["new"] = new
         obs["after"] = _read_all(case, new, R)
-        obs["ex_after"] = lib_records.walk(R)
+        obs["ex_after"] = lib_records.walk(R, followlinks=fl)
         return obs
     finally:
         common.rmtree(R)
@@ -289,8 +314,15 @@ def check_reloc(ctx, case, obs):
         p = case["products"][rec["i"]]
         if rec["status"] != "ok" or rec["prod"] is None:
             continue
-        reqs.append(_glue_req(case, p, obs, new)); tags.append(("glue", rec["i"]))
-        reqs.append({"m": "c16", "op": "declare", "prod": rec["prod"], "ex": rec["ex"], "who": lib_records.WHO,
+        links = [[obs["stack"], obs["real"]]] if case.get("link") else []
+        if case.get("link") != "link_real_args":
+            reqs.append(_glue_req(case, p, obs, new)); tags.append(("glue", rec["i"]))
+        else:
+            # arguments typed by their real paths below a linked stack: the Product that Eups.declare builds mixes the
+            # two spellings (real directory, database through the link); the glue model has one root and is not asked;
+            # the record is predicted from that Product with os.path.realpath = the link map (VersionFile.write)
+            ctx.hist("model=glue-not-asked(real-path arguments)")
+        reqs.append({"m": "c16", "op": "declare", "prod": rec["prod"], "ex": rec["ex"], "who": lib_records.WHO, "links": links,
                      "now": "T%d" % (rec["clock0"] + 1), "old_text": rec["old_text"]}); tags.append(("declare", rec["i"]))
     last = {}
     for rec in obs["decl"]:
@@ -310,6 +342,7 @@ def check_reloc(ctx, case, obs):
         ctx.hist("dir=%s/table=%s" % (p["dir"]["kind"] + ("~" if "@SIBLING" in p["dir"].get("path", "") else ""),
                                       _tkind(p)))
         ctx.hist("cwd=" + p["cwd"])
+        ctx.hist("stack=" + (case.get("link") or "plain"))
         ctx.hist("declare=" + rec["status"].split(":")[0])
         if rec["status"] != "ok":
             ctx.fail("declare_succeeds", inp, lib_records.subst({"i": rec["i"], "status": rec["status"], "detail": rec.get("detail")}, pairs),
@@ -344,6 +377,11 @@ def check_reloc(ctx, case, obs):
                 mo_cached = ("ERR:" + ans["cached"]["err"]) if "err" in ans["cached"] else \
                     {k: ans["cached"][k] for k in ("dir", "table", "extra")}
             wd, wt, we = want_dir(p, root, R, sn), want_table(p, root, R, sn), want_extra(p, root)
+            # declared through real paths below a linked stack: before the relocation the cache of the declaring user
+            # still holds the names as they were typed - the same directory and file by their real names
+            alt = None
+            if case.get("link") == "link_real_args" and tag == "before":
+                alt = (want_dir(p, obs["real"], R, sn), want_table(p, obs["real"], R, sn))
             for via, v in (("files", fview), ("cache", cview)):
                 ctx.hist("view=%s/%s" % (tag, via))
                 if isinstance(v, dict):
@@ -357,9 +395,9 @@ def check_reloc(ctx, case, obs):
                 clause = None
                 if not isinstance(v, dict):
                     clause, note = "declared_product_found", "reader returned %r" % (v,)
-                elif v["dir"] != wd:
+                elif v["dir"] != wd and not (alt and via == "cache" and v["dir"] == alt[0]):
                     clause, note = "dir_resolves", "dir %r, wanted %r" % (v["dir"], wd)
-                elif v["table"] != wt:
+                elif v["table"] != wt and not (alt and via == "cache" and v["table"] == alt[1]):
                     clause, note = "table_resolves", "table %r, wanted %r" % (v["table"], wt)
                 elif v["extra"] != we:
                     clause, note = "extra_dir_resolves", "extra %r, wanted %r" % (v["extra"], we)
@@ -417,7 +455,30 @@ def gen_flavors(rng, clean):
         if rng.random() < 0.3:
             fl.append(fl[0].split(":")[0] + ":build")
             fl = list(dict.fromkeys(fl))
+    elif clean and rng.random() < 0.35:
+        # qualified flavors inside the round-trip alphabet (C16_text_roundtrip_*_qual): keys base:qual with a clean
+        # qualifier that does not start with ':', in an order where no unqualified flavor precedes a qualified one
+        # of the same base (the unqualified key of a base, if any, goes after every qualified key of that base)
+        keys, plain = [], []
+        for f in fl:
+            keys += [f + ":" + q for q in rng.sample(["build", "a:b", "x y", "opt-2", "b::c"], rng.choice([1, 1, 2]))]
+            if rng.random() < 0.5:
+                plain.append(f)
+        rng.shuffle(keys)
+        for f in plain:
+            last = max(i for i, k in enumerate(keys) if k.split(":")[0] == f)
+            keys.insert(rng.randint(last + 1, len(keys)), f)
+        fl = keys
     return fl
+
+
+def qual_order(keys):
+    """QualOrder of Lemmas/RecordQual.lean, computed from the keys alone."""
+    for j, b in enumerate(keys):
+        for a in keys[:j]:
+            if a == b or (":" in b and a == b.split(":")[0]):
+                return False
+    return True
 
 
 def gen_vrec(rng):
@@ -592,7 +653,12 @@ def check_rec(ctx, case, impl, answers):
         mo_read = ("EXC:" + a["err"]) if "err" in a else a["rec"]
         if _norm_read(mo_read) != _norm_read(impl["read"]):
             ctx.disagree("record_read", inp, impl["read"], mo_read)
-    ctx.hist("rec=%s/%s" % (case["kind"], "clean" if case.get("clean", False) else ("text" if "text" in case else "dirty")))
+    cls = "clean" if case.get("clean", False) else ("text" if "text" in case else "dirty")
+    if cls == "clean" and any(":" in fq for fq, _ in case["flavors"]):
+        cls = "clean-qual"
+        if not qual_order([fq for fq, _ in case["flavors"]]):
+            raise common.InfraError("generator: a clean record with qualified flavors violates QualOrder: %r" % (case["flavors"],))
+    ctx.hist("rec=%s/%s" % (case["kind"], cls))
     if isinstance(impl["read"], str):
         ctx.hist("read=" + impl["read"])
     if isinstance(impl["text"], str) and impl["text"].startswith("EXC:"):
@@ -694,6 +760,92 @@ def run_hand(case):
         common.rmtree(R)
 
 
+_HEADS = {"$PROD_ROOT": "prodRoot", "$UPS_DB": "upsDb", "$PROD_DIR": "prodDir", "$UPS_DIR": "upsDir"}
+
+
+def _mexpr(v, R):
+    """A hand-written entry as a macro expression (kind, segments) of Lemmas/RecordMacro.lean, or None when it is
+    outside that grammar ($PROD_DIRX, $FLAVOR.table, ...)."""
+    if v is None:
+        return ("missing", [])
+    if v == "none":
+        return ("none", [])
+    if v.startswith("@OUT"):
+        return ("abs", [x for x in (R + v[4:]).split("/") if x])
+    segs = v.split("/")
+    if segs[0] in _HEADS:
+        kind, segs = _HEADS[segs[0]], segs[1:]
+    elif segs[0].startswith("$PROD_") or segs[0].startswith("$UPS_"):
+        return None
+    else:
+        kind = "rel"
+    if any("$" in x and x != "$FLAVOR" for x in segs) or any(x == "" for x in segs):
+        return None
+    return (kind, segs)
+
+
+def hand_expect(case, root, R, exists):
+    """Oracle (ii) for hand-written macro records, model-free: the specification side of C16_macro_records
+    (MDir/MUps/MTab.denote, MacroWF) evaluated on the generator's description.  Returns (dir, table) as the reader
+    must report them for a stack at `root`, or None when the record is outside the class the theorem covers."""
+    f = case["flavor"]
+    md, mu, mt = (_mexpr(case["fields"][k], R) for k in ("PROD_DIR", "UPS_DIR", "TABLE_FILE"))
+    if md is None or mu is None or mt is None or md[0] in ("missing", "prodDir", "upsDir") or mu[0] == "upsDir" or mt[0] == "missing":
+        return None
+    if case["end"] and mu[0] == "missing" and mt[0] != "none":
+        mu = ("none", [])                       # the End: line supplies ups_dir = none for a real table file
+    ds = lambda segs: [f if x == "$FLAVOR" else x for x in segs]
+    rootl = [x for x in root.split("/") if x]
+    d_rel = md[0] in ("rel", "prodRoot", "upsDb")
+    u_rel = mu[0] in ("rel", "prodDir", "prodRoot", "upsDb")
+    # MacroWF
+    if mu[0] == "rel" and md[0] == "none":
+        return None
+    if (mu[0] == "prodDir" or mt[0] == "prodDir") and not d_rel:
+        return None
+    if mt[0] == "upsDir" and not u_rel:
+        return None
+    if mt[0] == "rel" and (not mt[1] or any("$" in x for x in mt[1])):
+        return None
+    if md[0] == "abs" and any("$" in x for x in md[1]):
+        return None
+
+    def macro(kind, segs, D, U):
+        if kind in ("prodRoot",):
+            return rootl + ds(segs)
+        if kind == "upsDb":
+            return rootl + ["ups_db"] + ds(segs)
+        if kind == "abs":
+            return segs
+        if kind == "prodDir":
+            return D + ds(segs)
+        if kind == "upsDir":
+            return U + ds(segs)
+        raise KeyError(kind)
+    D = None if md[0] == "none" else (rootl + ds(md[1]) if md[0] == "rel" else macro(md[0], md[1], None, None))
+    if mu[0] in ("none", "missing"):
+        U = mu[0]
+    elif mu[0] == "rel":
+        U = D + ds(mu[1])
+    else:
+        U = macro(mu[0], mu[1], D, None)
+    p = lambda l: "/" + "/".join(l)
+    if mt[0] == "none":
+        T = "none"
+    elif mt[0] == "rel":
+        U2 = (D + ["ups"]) if (U == "missing" and D is not None) else U
+        if isinstance(U2, list):
+            a, b = p(U2 + mt[1]), p(rootl + mt[1])
+            T = a if a in exists else b if b in exists else a
+        elif D is not None:
+            T = p(D + mt[1])
+        else:
+            T = "/".join(mt[1])
+    else:
+        T = p(macro(mt[0], mt[1], D, U if isinstance(U, list) else None))
+    return ("none" if D is None else p(D), T)
+
+
 def check_hand(ctx, case, obs):
     R, stack, new = obs["R"], obs["stack"], obs["new"]
     pairs = [(new, "$NEW"), (stack, "$STACK"), (R, "$R")]
@@ -748,6 +900,18 @@ def check_hand(ctx, case, obs):
         if want is not None and v["dir"] != want:
             ctx.fail("hand_dir_resolves/" + phase, case, lib_records.subst(v, pairs), None,
                      note=lib_records.subst("PROD_DIR = %s read as %r, wanted %r" % (pd, v["dir"], want), pairs))
+        # the macro semantics of C16_macro_records, evaluated without the model
+        exp = hand_expect(case, root, R, set(obs["ex_before" if phase == "before" else "ex_after"]))
+        ctx.hist("hand:class=" + ("macro-spec" if exp is not None else "outside"))
+        if exp is not None:
+            if "$" in "".join(str(case["fields"][k]) for k in ("PROD_DIR", "UPS_DIR", "TABLE_FILE")):
+                ctx.hist("hand:macro-spec-with-macro")
+            if v["dir"] != exp[0]:
+                ctx.fail("hand_macro_dir/" + phase, case, lib_records.subst(v, pairs), None,
+                         note=lib_records.subst("fields %r: directory read as %r, the macros mean %r" % (case["fields"], v["dir"], exp[0]), pairs))
+            if v["table"] != exp[1]:
+                ctx.fail("hand_macro_table/" + phase, case, lib_records.subst(v, pairs), None,
+                         note=lib_records.subst("fields %r: table file read as %r, the macros mean %r" % (case["fields"], v["table"], exp[1]), pairs))
 
 
 # ================================================================================================
@@ -788,7 +952,26 @@ def gen_dbops(rng):
         if k in ("db_unassign", "eups_untag", "db_assign", "eups_retag"):
             op["tag"] = rng.choice(DB_TAGS)
         ops.append(op)
-    return {"kind": "dbops", "name": "q", "flavors": flavors, "decl": decl, "tags": tags, "ops": ops}
+    live = rng.random() < 0.5
+    if live:
+        # one process, one live Database object for the whole history (reads in between): database-layer operations
+        # only, declarations included; often the shape "a version held for two flavors loses one, then is declared again"
+        ops = []
+        multi = sorted({d["version"] for d in decl if sum(1 for e in decl if e["version"] == d["version"]) >= 2})
+        if multi and rng.random() < 0.7:
+            v = rng.choice(multi)
+            fa = rng.choice([d["flavor"] for d in decl if d["version"] == v])
+            ops.append({"kind": "db_undeclare", "flavor": fa, "version": v})
+            ops.append({"kind": "db_declare", "flavor": rng.choice(flavors), "version": v})
+        for _ in range(rng.randint(2, 5)):
+            k = rng.choice(["db_undeclare", "db_unassign", "db_assign", "db_declare", "db_declare"])
+            op = {"kind": k, "flavor": rng.choice(flavors)}
+            if k != "db_unassign":
+                op["version"] = rng.choice(DB_VERSIONS)
+            if k in ("db_unassign", "db_assign"):
+                op["tag"] = rng.choice(DB_TAGS)
+            ops.insert(rng.randint(0, len(ops)) if rng.random() < 0.3 else len(ops), op)
+    return {"kind": "dbops", "name": "q", "flavors": flavors, "decl": decl, "tags": tags, "ops": ops, "live": live}
 
 
 def _dir_texts(pdir):
@@ -876,6 +1059,60 @@ def _child_dbop(R, stack, case, op, clock0):
     return {"err": err, "clock": clock.n}
 
 
+def _child_dblive(R, stack, case, clock0):
+    """The whole history in this one process on one Database object, with reads through the object in between."""
+    lib_records.silence()
+    os.chdir(R + "/cwd")
+    clock = lib_records.patch_stamps(clock0)
+    D = common.eups_mod("db.Database")
+    P = common.eups_mod("Product")
+    name = case["name"]
+    dbpath = os.path.join(stack, "ups_db")
+    pdir = os.path.join(dbpath, name)
+    db = D.Database(dbpath)
+
+    def answers():
+        out = {}
+        for v in DB_VERSIONS:
+            for f in case["flavors"]:
+                try:
+                    q = db.findProduct(name, v, f)
+                    out["%s/%s" % (v, f)] = None if q is None else sorted(str(t) for t in db.findTags(name, v, f))
+                except Exception as ex:  # noqa
+                    out["%s/%s" % (v, f)] = "EXC:" + lib_records.exc_name(ex)
+        try:
+            out["versions"] = sorted(db.findVersions(name))
+        except Exception as ex:  # noqa
+            out["versions"] = "EXC:" + lib_records.exc_name(ex)
+        return out
+    first = answers()
+    steps = []
+    for op in case["ops"]:
+        before, c0, err, prod = _dir_texts(pdir), clock.n, None, None
+        f = op["flavor"]
+        ex = lib_records.walk(R) if op["kind"] == "db_declare" else None
+        try:
+            if op["kind"] == "db_undeclare":
+                db.undeclare(P.Product(name, op["version"], f))
+            elif op["kind"] == "db_unassign":
+                db.unassignTag(op["tag"], name, f)
+            elif op["kind"] == "db_assign":
+                db.assignTag(op["tag"], name, op["version"], f)
+            elif op["kind"] == "db_declare":
+                pd = common.mkprod(stack, name, op["version"], flavor=f)
+                ex = lib_records.walk(R)
+                prod = {"name": name, "version": op["version"], "flavor": f, "dir": pd,
+                        "table": os.path.join(pd, "ups", name + ".table"), "ups_dir": None, "db": dbpath}
+                db.declare(P.Product(name, op["version"], f, pd, prod["table"], [], dbpath))
+            else:
+                raise ValueError(op["kind"])
+        except Exception as e:  # noqa
+            err = lib_records.exc_name(e)
+        steps.append({"before": before, "after": _dir_texts(pdir), "clock0": c0, "err": err, "prod": prod, "ex": ex,
+                      "answers": answers()})
+    return {"first": first, "steps": steps}
+
+
 def run_dbops(case):
     R = common.scratch("c16d")
     try:
@@ -894,6 +1131,20 @@ def run_dbops(case):
         clock = 100
         back = os.getcwd()
         os.chdir(R + "/cwd")
+        if case.get("live"):
+            try:
+                r = common.in_child(_child_dblive, R, stack, case, clock)
+                if r[0] != "ok":
+                    return {"setup": "live child: " + str(r[:3])}
+                obs["first"] = r[1]["first"]
+                for st in r[1]["steps"]:
+                    st["bb"] = {fn: _blocks(fn, t) for fn, t in st["before"].items()}
+                    st["ba"] = {fn: _blocks(fn, t) for fn, t in st["after"].items()}
+                    obs["steps"].append(st)
+                obs["R"] = R
+                return obs
+            finally:
+                os.chdir(back)
         try:
             for op in case["ops"]:
                 before = _dir_texts(pdir)
@@ -930,6 +1181,12 @@ def check_dbops(ctx, case, obs):
     for i, (op, st) in enumerate(zip(case["ops"], obs["steps"])):
         if st.get("skipped") or op["kind"] == "redeclare":
             continue
+        if op["kind"] == "db_declare":
+            if st.get("prod") is not None:
+                reqs.append({"m": "c16", "op": "declare", "prod": st["prod"], "ex": st["ex"], "who": lib_records.WHO,
+                             "now": "T%d" % (st["clock0"] + 1), "old_text": st["before"].get(op["version"] + ".version")})
+                idx.append(i)
+            continue
         kind = {"db_undeclare": "undeclare", "eups_undeclare": "undeclare", "db_unassign": "unassign",
                 "eups_untag": "unassign", "db_assign": "assign", "eups_retag": "retag"}[op["kind"]]
         dbop = {"kind": kind, "flavor": op["flavor"], "who": lib_records.WHO, "now": "T%d" % (st["clock0"] + 1)}
@@ -942,6 +1199,19 @@ def check_dbops(ctx, case, obs):
         idx.append(i)
     answers = ctx.lean.ask_many(reqs)
     ans_of = dict(zip(idx, answers))
+    ctx.hist("dbops=" + ("live-object" if case.get("live") else "process-per-command"))
+    if case.get("live"):
+        # the shape the live histories are there for: a version held for several flavors loses one of them and is
+        # declared again later in the same process
+        seen_und = set()
+        hit = False
+        for op, st in zip(case["ops"], obs["steps"]):
+            if op["kind"] == "db_undeclare" and st["before"] != st["after"] and (op["version"] + ".version") in st["after"]:
+                seen_und.add(op["version"])
+            if op["kind"] == "db_declare" and op["version"] in seen_und and st["err"] is None:
+                hit = True
+        if hit:
+            ctx.hist("dbops-live:undeclare-one-flavor-then-declare-same-version")
     for i, (op, st) in enumerate(zip(case["ops"], obs["steps"])):
         ctx.hist("dbop=%s%s" % (op["kind"], "/skipped" if st.get("skipped") else ""))
         if st.get("skipped"):
@@ -957,12 +1227,39 @@ def check_dbops(ctx, case, obs):
             if "bad-op" in a:
                 raise common.InfraError("driver: %s" % a)
             if "err" in a:
-                ctx.disagree("dbop_records", inp, st["after"], "ERR:" + a["err"])
+                mo = "ERR:" + a["err"]
+                if not (op["kind"] == "db_declare" and a["err"] == "unmodelled"):
+                    ctx.disagree("dbop_records", inp, st["after"], mo)
             else:
-                mo = {n + ".version": t for n, t in a["versions"] if t is not None}
-                mo.update({n + ".chain": t for n, t in a["chains"] if t is not None})
+                if op["kind"] == "db_declare":
+                    mo = dict(st["before"])                  # a declaration without tags rewrites its version record only
+                    mo[op["version"] + ".version"] = a["text"]
+                else:
+                    mo = {n + ".version": t for n, t in a["versions"] if t is not None}
+                    mo.update({n + ".chain": t for n, t in a["chains"] if t is not None})
                 if mo != st["after"]:
                     ctx.disagree("dbop_records", inp, st["after"], mo)
+        # oracle (ii), live histories: what the one long-lived Database object answers = what is on disk now
+        if case.get("live"):
+            disk = {"%s/%s" % (fn[:-8], fq): True for fn, b in st["ba"].items() if fn.endswith(".version") for fq in b}
+            for key, ans in sorted(st["answers"].items()):
+                if key == "versions":
+                    want = sorted({fn[:-8] for fn in st["ba"] if fn.endswith(".version")})
+                    if ans != want:
+                        ctx.fail("live_object_agrees_with_disk", inp, st["answers"], None,
+                                 note="findVersions answers %r, the directory holds %r" % (ans, want))
+                    continue
+                if isinstance(ans, str) or (ans is not None) != (key in disk):
+                    ctx.fail("live_object_agrees_with_disk", inp, st["answers"], None,
+                             note="after step %d (%s %s) the live Database object answers %r for %s, on disk the block is %s"
+                             % (i, op["kind"], op["flavor"], ans, key, "present" if key in disk else "absent"))
+                elif ans is not None:
+                    v_, f_ = key.split("/")
+                    tags_disk = sorted(fn[:-6] for fn, b in st["ba"].items() if fn.endswith(".chain")
+                                       and isinstance(b.get(f_, (None,))[0], dict) and b[f_][0].get("version") == v_)
+                    if ans != tags_disk:
+                        ctx.fail("live_object_agrees_with_disk", inp, st["answers"], None,
+                                 note="tags of %s: the object answers %r, the chain records say %r" % (key, ans, tags_disk))
         # oracle (ii): every block of every other flavor, in every version and chain record, parsed and as text
         F = op["flavor"]
         for fn in sorted(set(st["bb"]) | set(st["ba"])):
@@ -1075,11 +1372,24 @@ def run(ctx):
         evaluate(ctx, cc)
     nreloc, nrec = ctx.n(200, 5000), ctx.n(3000, 60000)
     done_l = done_r = 0
-    while (done_l < nreloc or done_r < nrec) and not ctx.out_of_time():
+    soft = ctx.t0 + (90 if ctx.tier == "quick" and not getattr(ctx, "escalated", False) else 1e9)   # quick tier: well under 3 minutes
+    while (done_l < nreloc or done_r < nrec) and not ctx.out_of_time() and (time.time() < soft or done_l == 0):
         a, b = min(60, nreloc - done_l), min(1500, nrec - done_r)
         evaluate(ctx, gen_batch(ctx.rng, a, b))
         done_l += a
         done_r += b
+    for k in ("rec=vrec/clean-qual", "rec=crec/clean-qual"):
+        if done_r >= 1500 and ctx.histogram.get(k, 0) < 20:
+            raise common.InfraError("degenerate distribution: only %d cases of class %s" % (ctx.histogram.get(k, 0), k))
+    if done_l >= 60 and ctx.histogram.get("dbops-live:undeclare-one-flavor-then-declare-same-version", 0) < 3:
+        raise common.InfraError("degenerate distribution: only %d live-object histories with undeclare-then-declare of one version"
+                                % ctx.histogram.get("dbops-live:undeclare-one-flavor-then-declare-same-version", 0))
+    if done_l >= 60 and min(ctx.histogram.get("stack=link", 0), ctx.histogram.get("stack=link_real_args", 0)) < done_l // 4:
+        raise common.InfraError("degenerate distribution: symlinked stacks: %d / %d declarations of %d stacks"
+                                % (ctx.histogram.get("stack=link", 0), ctx.histogram.get("stack=link_real_args", 0), done_l))
+    if done_l >= 60 and ctx.histogram.get("hand:macro-spec-with-macro", 0) < done_l:
+        raise common.InfraError("degenerate distribution: only %d hand-written macro records inside the class of C16_macro_records"
+                                % ctx.histogram.get("hand:macro-spec-with-macro", 0))
     views = sum(v for k, v in ctx.histogram.items() if k.startswith("view=after"))
     if nreloc and views < 2 * done_l:
         raise common.InfraError("degenerate distribution: only %d relocated views from %d stacks" % (views, done_l))
